@@ -316,3 +316,147 @@ def expand_per_alt(site: Site, e: ast.expr) -> list[ast.expr]:
         outs.setdefault(ast.dump(x), x)
     return list(outs.values()) or [e]
 
+
+
+# --------------------------------------------------------------------------- memoisation keyed by less than the result depends on
+def memo_audit(f, repo=None) -> list[tuple[str, ast.AST, list[str], list[str]]]:
+    """Caches a function consults before computing: (container, node, problems, unknown) per container kept OUTSIDE the call (module-level name,
+    class or instance attribute, mutable default) that is read with a key and whose hit is returned. `problems` name parameters the function's result
+    depends on that the key does not determine: missing altogether, or present only through a projection that loses information (`x.tobytes()` without
+    `x.shape`, `id(x)`, `len(x)`, `x.name`, ...). `unknown` lists projections this audit cannot judge. A parameter used whole (`x`, `tuple(x)`,
+    `x.tobytes()` together with `x.shape`) is determined. Purely structural, nothing is executed."""
+    fn = f.node
+    params = [a.arg for a in [*fn.args.posonlyargs, *fn.args.args, *fn.args.kwonlyargs] if a.arg not in ("self", "cls")]
+    if fn.args.vararg:
+        params.append(fn.args.vararg.arg)
+    local_stores = {n.id for n in ast.walk(fn) if isinstance(n, ast.Name) and isinstance(n.ctx, ast.Store)}
+    assigns = {}
+    for n in ast.walk(fn):
+        if isinstance(n, ast.Assign) and len(n.targets) == 1 and isinstance(n.targets[0], ast.Name):
+            assigns.setdefault(n.targets[0].id, []).append(n.value)
+        if isinstance(n, ast.NamedExpr) and isinstance(n.target, ast.Name):
+            assigns.setdefault(n.target.id, []).append(n.value)
+
+    def outside(e: ast.AST) -> str | None:
+        if isinstance(e, ast.Name) and e.id not in local_stores and e.id not in params and e.id in getattr(f.module, "consts", {}) or (
+                isinstance(e, ast.Name) and e.id not in local_stores and e.id not in params and e.id.startswith("_") and not e.id.startswith("__")):
+            return e.id
+        if isinstance(e, ast.Attribute) and isinstance(e.value, ast.Name) and e.value.id in ("self", "cls") and ("cache" in e.attr.lower() or "memo" in e.attr.lower()):
+            return f"{e.value.id}.{e.attr}"
+        if isinstance(e, ast.Attribute) and isinstance(e.value, ast.Call) and ast.unparse(e.value.func) == "type" and ("cache" in e.attr.lower() or "memo" in e.attr.lower()):
+            return ast.unparse(e)
+        return None
+
+    reads: list[tuple[str, ast.expr, ast.AST]] = []
+    for n in ast.walk(fn):
+        if isinstance(n, ast.Call) and isinstance(n.func, ast.Attribute) and n.func.attr in ("get", "setdefault") and n.args:
+            c = outside(n.func.value)
+            if c:
+                reads.append((c, n.args[0], n))
+        if isinstance(n, ast.Compare) and len(n.ops) == 1 and isinstance(n.ops[0], (ast.In, ast.NotIn)):
+            c = outside(n.comparators[0])
+            if c:
+                reads.append((c, n.left, n))
+        if isinstance(n, ast.Subscript) and isinstance(n.ctx, ast.Load):
+            c = outside(n.value)
+            if c and any(isinstance(s_, ast.Subscript) and isinstance(s_.ctx, ast.Store) and outside(s_.value) == c for s_ in ast.walk(fn)):
+                reads.append((c, n.slice, n))
+    # only containers the function also fills are caches of its own result
+    written = {outside(s_.value) for s_ in ast.walk(fn) if isinstance(s_, ast.Subscript) and isinstance(s_.ctx, ast.Store)} | {
+        outside(c_.func.value) for c_ in ast.walk(fn) if isinstance(c_, ast.Call) and isinstance(c_.func, ast.Attribute) and c_.func.attr in ("setdefault", "update")}
+    out = []
+    seen = set()
+    for cont, key, node in reads:
+        if cont not in written or cont in seen:
+            continue
+        seen.add(cont)
+        k = key
+        for _ in range(4):
+            if isinstance(k, ast.Name) and k.id in assigns and len(assigns[k.id]) == 1:
+                k = assigns[k.id][0]
+        # which parameters does the result depend on: those read anywhere outside the key expression
+        key_nodes = {id(x) for x in ast.walk(k)}
+        used = {n.id for n in ast.walk(fn) if isinstance(n, ast.Name) and n.id in params and isinstance(n.ctx, ast.Load) and id(n) not in key_nodes}
+        uses_self = any(isinstance(n, ast.Attribute) and isinstance(n.value, ast.Name) and n.value.id == "self" and outside(n) is None for n in ast.walk(fn))
+        problems, unknown = [], []
+        proj: dict[str, set[str]] = {}
+        for n in ast.walk(k):
+            if isinstance(n, ast.Name) and n.id in params:
+                proj.setdefault(n.id, set())
+        # projections of each parameter inside the key
+        def walk(e: ast.AST, wrap: str | None) -> None:
+            if isinstance(e, ast.Name) and e.id in params:
+                proj.setdefault(e.id, set()).add(wrap or "whole")
+                return
+            if isinstance(e, ast.Attribute) and isinstance(e.value, ast.Name) and e.value.id in params:
+                proj.setdefault(e.value.id, set()).add("." + e.attr)
+                return
+            if isinstance(e, ast.Call) and isinstance(e.func, ast.Attribute) and isinstance(e.func.value, ast.Name) and e.func.value.id in params and not e.args:
+                proj.setdefault(e.func.value.id, set()).add("." + e.func.attr + "()")
+                return
+            if isinstance(e, ast.Call) and isinstance(e.func, ast.Name) and e.func.id in ("tuple", "frozenset", "str", "repr") and len(e.args) == 1:
+                walk(e.args[0], wrap)
+                return
+            if isinstance(e, ast.Call) and isinstance(e.func, ast.Name) and e.func.id in ("id", "len", "hash", "type") and len(e.args) == 1:
+                walk(e.args[0], e.func.id + "()")
+                return
+            for c_ in ast.iter_child_nodes(e):
+                walk(c_, wrap)
+        walk(k, None)
+        for p in sorted(used):
+            ps = proj.get(p)
+            if not ps:
+                problems.append(f"`{p}` is not part of the key")
+                continue
+            if "whole" in ps:
+                continue
+            if ".tobytes()" in ps:
+                if ".shape" not in ps:
+                    problems.append(f"`{p}.tobytes()` without `{p}.shape`: arrays of different shape with the same elements share an entry")
+                continue
+            lossy = [x for x in ps if x in ("id()", "len()", "hash()", "type()", ".name", ".shape", ".size", ".ndim", ".dtype", ".num_dims")]
+            if lossy and len(lossy) == len(ps):
+                problems.append(f"`{p}` enters the key only through {sorted(ps)}")
+            else:
+                unknown.append(f"`{p}` through {sorted(ps)}")
+        if uses_self and not any(isinstance(n, ast.Name) and n.id == "self" for n in ast.walk(k)) and cont.split(".")[0] != "self":
+            problems.append("the instance (`self`) is not part of the key of a cache shared between instances")
+        out.append((cont, node, problems, unknown))
+    return out
+
+
+def loop_dedupe_audit(fl, func) -> list[tuple[str, object, set[str], set[str]]]:
+    """local tables that remember a value per key ACROSS the iterations of a loop and skip the computation on a hit: (table, store site, loop variables
+    the stored value depends on, loop variables the key determines). The stored value is then reused for every later iteration with the same key, so
+    every loop variable it depends on has to be determined by the key."""
+    out = []
+    tables = set()
+    for st in fl.stmts(ast.Assign, ast.AnnAssign):
+        tgt = st.node.targets[0] if isinstance(st.node, ast.Assign) else st.node.target
+        v = st.node.value
+        if isinstance(tgt, ast.Name) and v is not None and (isinstance(v, ast.Dict) and not v.keys or (isinstance(v, ast.Call) and callee_name(v) in ("dict", "defaultdict", "OrderedDict") and not v.args)):
+            tables.add(tgt.id)
+    for st in fl.stmts(ast.Assign):
+        tgt = st.node.targets[0]
+        if not (st.reachable and isinstance(tgt, ast.Subscript) and isinstance(tgt.value, ast.Name) and tgt.value.id in tables):
+            continue
+        d = tgt.value.id
+        loops = [l for l in st.loops if isinstance(l, ast.For)]
+        if not loops:
+            continue
+        lp = loops[-1]
+        lvars = {n.id for n in ast.walk(lp.target) if isinstance(n, ast.Name)}
+        # a hit skips the computation: `if key in d: continue` / `if key not in d: <compute>` / d.get(key) tested
+        hit = any(isinstance(n, ast.Compare) and len(n.ops) == 1 and isinstance(n.ops[0], (ast.In, ast.NotIn)) and isinstance(n.comparators[0], ast.Name) and n.comparators[0].id == d
+                  for x in lp.body for n in ast.walk(x))
+        if not hit:
+            continue
+        # the key determines a loop variable only if it CONTAINS it (a function of it, like `operands[i]`, may coincide for different i)
+        k_ = norm.primary(st.expand(tgt.slice))
+        elts = k_.elts if isinstance(k_, ast.Tuple) else [k_]
+        key_vars = {norm.primary(e).id for e in elts if isinstance(norm.primary(e), ast.Name) and norm.primary(e).id in lvars}
+        cone = fl.cone(st.node.value, st, inline=0)
+        deps = norm.free_names(cone) & lvars
+        # loop variables bound together (zip / enumerate) are distinct coordinates: none determines another
+        out.append((d, st, deps, key_vars))
+    return out
